@@ -36,6 +36,9 @@ const (
 	fTrunc   = "trunc"   // block: only the first Arg bytes arrive
 	fDelayT1 = "delayT1" // block: first Arg bytes, a pause of T1+delta, then the rest
 	fDelayT2 = "delayT2" // the whole unit arrives T2+delta late
+	// block: the length byte is replaced by 10 (a header-only block), the 13 bytes that now form "the
+	// block" arrive at once, the rest half a T1 later (a corrupted length byte with the tail in flight)
+	fShortLen = "shortlen"
 )
 
 type fault struct {
@@ -132,31 +135,31 @@ type mbox struct {
 	count [2]int
 	trace []unit
 	// protocol tracker (reset per generation)
-	enqOut   [2]bool // the side has sent ENQ and no block since
-	blockMd  [2]bool // the side's next unit is a block transmission
-	sending  [2]bool // from the side's ENQ until the ACK of its block is delivered to it
-	awaitAck [2]bool
-	yielding [2]bool // the side answered EOT while its own ENQ was outstanding
-	attempts [2]int  // ENQs for the current block since the last reset (ACK, successful yield, exhaustion)
-	rty      int     // configured retry limit of both ends
-	lastHdr  [2]string // header of the block transmitted last in the current run of attempts ("" none)
-	spent    [2]bool   // a failed attempt was seen with attempts >= RTY+1: the block is given up
-	spentHdr [2]string // ... its header ("" if it was never transmitted)
-	spentN   [2]int    // ... and its attempts
-	genSpent [2]bool   // the side exhausted a block in this link generation (its teardown is explained)
-	over     [2]bool   // an ENQ beyond RTY+1 with no failure seen (time-outs are invisible): decided by the next block
-	overHdr  [2]string
-	overBase [2]int
+	enqOut      [2]bool // the side has sent ENQ and no block since
+	blockMd     [2]bool // the side's next unit is a block transmission
+	sending     [2]bool // from the side's ENQ until the ACK of its block is delivered to it
+	awaitAck    [2]bool
+	yielding    [2]bool   // the side answered EOT while its own ENQ was outstanding
+	attempts    [2]int    // ENQs for the current block since the last reset (ACK, successful yield, exhaustion)
+	rty         int       // configured retry limit of both ends
+	lastHdr     [2]string // header of the block transmitted last in the current run of attempts ("" none)
+	spent       [2]bool   // a failed attempt was seen with attempts >= RTY+1: the block is given up
+	spentHdr    [2]string // ... its header ("" if it was never transmitted)
+	spentN      [2]int    // ... and its attempts
+	genSpent    [2]bool   // the side exhausted a block in this link generation (its teardown is explained)
+	over        [2]bool   // an ENQ beyond RTY+1 with no failure seen (time-outs are invisible): decided by the next block
+	overHdr     [2]string
+	overBase    [2]int
 	exceeded    string // a block requested more than RTY+1 times
 	gaveUpEarly string // a side closed its socket in the middle of a send before RTY+1 attempts
-	lastEnq  [2]time.Duration
-	t2side   [2]time.Duration // T2 of the equipment and of the host
+	lastEnq     [2]time.Duration
+	t2side      [2]time.Duration // T2 of the equipment and of the host
 	// findings of the tracker
 	maxAttempts   [2]int
 	failAttempts  [][2]int // (side, attempts) whenever a side closed its socket first while it was sending
 	masterYielded string
 	parseErrs     []string
-	resyncs       int // units whose kind the byte decided against the tracker
+	resyncs       int            // units whose kind the byte decided against the tracker
 	blockTx       map[string]int // transmissions per (gen, dir, header)
 }
 
@@ -494,6 +497,14 @@ func (m *mbox) forward(d int, u unit, data []byte, dst *sim.Conn, gen int) {
 		applied = f.String()
 		note()
 		write(data[:f.Arg])
+	case f.Kind == fShortLen && u.Block && len(data) >= 17 && int(data[11])<<8|int(data[12]) != sum16(data[1:11]):
+		applied = f.String()
+		note()
+		short := append([]byte{10}, data[1:13]...)
+		write(short)
+		m.pause(m.t1 / 2)
+		_, _ = dst.Write(data[13:])
+		m.quiesce()
 	case f.Kind == fDelayT1 && u.Block && f.Arg >= 1 && f.Arg < len(data):
 		applied = f.String()
 		note()
@@ -504,6 +515,14 @@ func (m *mbox) forward(d int, u unit, data []byte, dst *sim.Conn, gen int) {
 	default: // the fault does not apply to this kind of unit
 		write(data)
 	}
+}
+
+func sum16(b []byte) int {
+	n := 0
+	for _, x := range b {
+		n += int(x)
+	}
+	return n & 0xFFFF
 }
 
 // quiesce lets the receiver consume and answer what was just delivered before the next
